@@ -79,6 +79,7 @@ static void ref_memset(const Ctx *x, Ref *r) {        /* memset_s(dest,dmax,valu
     size_t delems = c->dmax * f->dunit / f->w;
     if (cnt == 0) { r->verdict = V_OK; r->has_dest = 1; r->dn = 0; return; }            /* documented: EOK when n = 0 */
     if (f->w == 1 && c->c > 255) { r_fail(r, ESLEMAX_); return; }
+    if (cnt > fn_limit(f) * f->dunit / f->w) { r_fail(r, 0); return; }      /* above the limit: ESLEMAX is documented, ESNOSPC (n > dmax) is true as well */
     if (cnt > delems) { r_fail(r, ESNOSPC_); return; }
     r->verdict = V_OK; r->has_dest = 1; r->dn = cnt;
     unsigned long v = f->w == 1 ? (c->c & 0xff) : f->w == 2 ? (c->c & 0xffff) : (unsigned long)(uint32_t)c->c;
